@@ -183,12 +183,44 @@ func (d *Decoder) DecodeInteger() (uint64, error) {
 	return d.decodeUintFromReader()
 }
 
+// Lower bounds of the encoded size of the larger sequence items (every
+// variable-length part empty, every compact integer in one octet). They let a
+// sequence length be checked against the remaining input before it is used
+// for make.
+const (
+	minTicketEnvelopeSize     = 1 + 784                      // attempt, ring VRF signature
+	minValidatorSignatureSize = 2 + 64                       // validator index, signature
+	minWorkResultSize         = 4 + 32 + 32 + 8 + 1 + 5      // service, code hash, payload hash, gas, result, refine load
+	minWorkReportSize         = 102 + 133 + 1 + 32 + 1 + 3*1 // package spec, context, core, authorizer hash, gas, 3 empty sequences
+	minReportGuaranteeSize    = minWorkReportSize + 4 + 1    // report, slot, signatures
+	minReadyRecordSize        = minWorkReportSize + 1        // report, dependencies
+	minAvailAssuranceSize     = 32 + 1 + 2 + 64              // anchor, bitfield, validator index, signature
+	minCulpritSize            = 32 + 32 + 64                 // target, key, signature
+	minFaultSize              = 32 + 1 + 32 + 64             // target, vote, key, signature
+	minWorkItemSize           = 4 + 32 + 8 + 8 + 2 + 3*1     // service, code hash, 2 gas limits, export count, 3 empty sequences
+	minBlockInfoSize          = 32 + 32 + 32 + 1             // header hash, beefy root, state root, reported
+)
+
 // C.6 Deserialization
 func (d *Decoder) DecodeLength() (uint64, error) {
+	// every item of a sequence or dictionary takes at least one octet
+	return d.DecodeLengthOf(1)
+}
+
+// DecodeLengthOf reads the length prefix of a sequence whose items take at
+// least minItemSize octets each. The length comes from untrusted input: one
+// that the remaining input cannot hold is rejected before it reaches make.
+func (d *Decoder) DecodeLengthOf(minItemSize uint64) (uint64, error) {
 	cLog(Yellow, "Reading length flag")
 	length, err := d.decodeUintFromReader()
 	if err != nil {
 		return 0, err
+	}
+	if minItemSize == 0 {
+		minItemSize = 1
+	}
+	if remaining := uint64(d.buf.Len()); length > remaining/minItemSize {
+		return 0, fmt.Errorf("length prefix %d exceeds the remaining input (%d octets, at least %d per item)", length, remaining, minItemSize)
 	}
 	cLog(Yellow, "Slice Length: %v", length)
 	return length, nil
